@@ -10,7 +10,9 @@
 //	writer    with a writer that fails after k bytes (every k is tried on small replies): the writer got exactly
 //	          the first k payload bytes, the writer's error is returned, and if the reply is reported clean the
 //	          connection is positioned exactly behind the reply;
-//	trunc     every strict prefix of a reply is reported unclean with an error;
+//	trunc     every strict prefix of a reply is reported unclean with an error -- with a writer that never fails and
+//	          (wtrunc) with a writer that fails part-way: both faults on the same reply must still give unclean;
+//	          in general: clean => exactly one whole reply was taken off the connection;
 //	split     the outcome does not depend on how the stream is split across reads;
 //	mal       malformed input never panics.
 package main
@@ -86,6 +88,9 @@ func genCase(r *gen.Rand, i int) any {
 		}
 		return Case{Op: "mal", Input: b.Input, Buf: []int{32, 64, 4096}[(i/2)%3], Budget: budget, Sizes: [][]int{nil, {1}, {3, 7}}}
 	}
+	if j := i - 2*len(boundaries); j < len(fixedWTrunc) { // deterministic: writer failure x truncation at every offset
+		return fixedWTrunc[j]
+	}
 	buf := gen.Pick(r, bufSizes)
 	c := Case{Buf: buf, Sizes: genChunkings(r), Budget: -1}
 	v := genReply(r, buf)
@@ -111,6 +116,14 @@ func genCase(r *gen.Rand, i int) any {
 		c.Budget = r.Size(300, buf)
 	case k < 8:
 		c.Op = "trunc"
+		if r.Bool() { // both faults: the writer fails part-way and the input ends early
+			c.Op = "wtrunc"
+			if p, ok := v.Payload(); ok && len(p) > 0 {
+				c.Budget = r.Intn(len(p))
+			} else {
+				c.Budget = r.Intn(4)
+			}
+		}
 	default:
 		c.Op = "mal"
 		in := v.Enc(nil)
@@ -118,6 +131,22 @@ func genCase(r *gen.Rand, i int) any {
 		c.V = nil
 	}
 	return c
+}
+
+func blobV(t byte, n int) *resp.V {
+	s := make([]byte, n)
+	for i := range s {
+		s[i] = byte('a' + i%26)
+	}
+	return &resp.V{K: "blob", T: t, S: s}
+}
+
+var fixedWTrunc = []Case{
+	{Op: "wtrunc", V: blobV('$', 10), Buf: 32, Budget: 3, Sizes: [][]int{nil, {1}, {4}}},
+	{Op: "wtrunc", V: blobV('$', 10), Buf: 32, Budget: 0, Sizes: [][]int{nil, {1}, {4}}},
+	{Op: "wtrunc", V: blobV('=', 40), Buf: 32, Budget: 33, Sizes: [][]int{nil, {1}, {7}}},
+	{Op: "wtrunc", V: blobV('$', 100), Buf: 64, Budget: 64, Sizes: [][]int{nil, {1}, {50}}},
+	{Op: "wtrunc", V: blobV('$', 5000), Buf: 4096, Budget: 4097, Sizes: [][]int{nil, {1000}, {4096}}},
 }
 
 func mutate(r *gen.Rand, enc []byte) []byte {
@@ -204,7 +233,7 @@ func run(ci any) (res obs.Result) {
 		input = append(input, reply...)
 	}
 	replyEnd := len(input)
-	if c.Op != "trunc" && c.Op != "mal" {
+	if c.Op != "trunc" && c.Op != "wtrunc" && c.Op != "mal" {
 		input = append(input, c.Rest...)
 	}
 	res.Sig = fmt.Sprint(c.Op, c.Buf, c.Budget, hash(input))
@@ -294,22 +323,26 @@ func run(ci any) (res obs.Result) {
 				obs.Bool(first.Clean), hbytes(first.Written), hbytes(after))
 		}
 		res.Obs = fmt.Sprintf("%s/%d n=%d clean=%v written=%d after=%d", first.Status, first.Err, first.N, first.Clean, len(first.Written), len(after))
-	case "trunc":
+	case "trunc", "wtrunc":
 		res.Class = "truncation"
+		if c.Op == "wtrunc" {
+			res.Class = "writer-failure+truncation"
+		}
 		var samples []string
 		step := len(input)/24 + 1
 		// a prefix that ends inside the reply proper (pushes before it may be complete)
 		for k := 0; k < len(input); k++ {
-			o, _ := resp.Stream(input[:k], c.Buf, c.Sizes[k%len(c.Sizes)], -1)
+			o, _ := resp.Stream(input[:k], c.Buf, c.Sizes[k%len(c.Sizes)], c.Budget)
+			// the reply has not been taken off the connection completely: it must not be reported clean
 			if (o.Clean || o.Status == "ok" || o.Status == "panic") && res.Oracle == "" {
-				res.Oracle = fmt.Sprintf("prefix of length %d of a %d-byte reply: %s clean=%v", k, len(input), o.Status, o.Clean)
+				res.Oracle = fmt.Sprintf("only %d of the %d bytes of the reply had arrived (writer budget %d), but streamTo returned %s clean=%v: the connection would be recycled with the rest of the reply outstanding", k, len(input), c.Budget, o.Status, o.Clean)
 			}
 			if k%step == 0 || k >= len(input)-3 {
 				samples = append(samples, fmt.Sprintf("(%s, %s, %s, %s)", obs.Nat(k), resp.Z(o.N), serrCoq(o), obs.Bool(o.Clean)))
 			}
 		}
 		if 2*len(input) <= resp.MaxCoqBytes {
-			res.Coq = obs.App("CStreamTrunc", obs.N(uint64(c.Buf)), hbytes(input), obs.List(samples))
+			res.Coq = obs.App("CStreamTrunc", obs.N(uint64(c.Buf)), budgetCoq(c.Budget), hbytes(input), obs.List(samples))
 		}
 		res.Obs = fmt.Sprintf("%d prefixes", len(input))
 		res.Nontrivial = len(input) > 3
